@@ -4,6 +4,8 @@ import (
 	"crypto/x509"
 	"fmt"
 	"strings"
+	"sync"
+	"sync/atomic"
 	"time"
 
 	"github.com/beevik/etree"
@@ -16,7 +18,7 @@ import (
 
 func init() {
 	register(&Prop{ID: "C02", Run: runC02, MinNontrivial: 500,
-		Rule:        "cases = (kind: signed SSO Response, signed assertion under an unsigned Response, bad Response signature over well-signed assertions, LogoutRequest, LogoutResponse) x (signer: store member i of n, untrusted key, trusted certificate with foreign key, same key under another certificate, KeyInfo absent) x (store: 0-3 certificates, RSA/ECDSA, signer's certificate present or not) x (SP clock at NotBefore-1s, NotBefore+1s, middle, NotAfter-1s, NotAfter+1s of the signing certificate) x (tamper: none, signed text altered, signed attribute altered); oracle: signature honoured iff certificate in store and key matches and window contains the injected now and untampered and (KeyInfo present or store size 1); a present but bad signature is an error, never 'accepted unflagged'; evidence counts clock reads whose stack contains verifyCertificate; non-trivial = reached signature processing; distinct by parameter tuple; also stores holding a renewed certificate over the same key, and a store-rollover class (outgoing + incoming certificate in a stock memory store, one SP, clock moving across the hand-over; the store must stay as configured); tamper sig-nested (own signature moved into an Extensions child); same-subject roll-over stores; store members with odd key-usage profiles; KeyInfo-less messages and doubled entries in the store-rollover class; tamper sigmethod-swapped (registered and unknown SignatureMethod / DigestMethod identifiers); stores listing Ed25519 certificates beside the one usable member; KeyInfo that names the signer's certificate (SKI, issuer and serial, subject name, key name) without carrying it; a store that fails after it was rotated; certificates issued by a CA that is a store member; tamper repeated-id (a second ID attribute in front of the signed element's own)",
+		Rule:        "cases = (kind: signed SSO Response, signed assertion under an unsigned Response, bad Response signature over well-signed assertions, LogoutRequest, LogoutResponse) x (signer: store member i of n, untrusted key, trusted certificate with foreign key, same key under another certificate, KeyInfo absent) x (store: 0-3 certificates, RSA/ECDSA, signer's certificate present or not) x (SP clock at NotBefore-1s, NotBefore+1s, middle, NotAfter-1s, NotAfter+1s of the signing certificate) x (tamper: none, signed text altered, signed attribute altered); oracle: signature honoured iff certificate in store and key matches and window contains the injected now and untampered and (KeyInfo present or store size 1); a present but bad signature is an error, never 'accepted unflagged'; evidence counts clock reads whose stack contains verifyCertificate; non-trivial = reached signature processing; distinct by parameter tuple; also stores holding a renewed certificate over the same key, and a store-rollover class (outgoing + incoming certificate in a stock memory store, one SP, clock moving across the hand-over; the store must stay as configured); tamper sig-nested (own signature moved into an Extensions child); same-subject roll-over stores; store members with odd key-usage profiles; KeyInfo-less messages and doubled entries in the store-rollover class; tamper sigmethod-swapped (registered and unknown SignatureMethod / DigestMethod identifiers); stores listing Ed25519 certificates beside the one usable member; KeyInfo that names the signer's certificate (SKI, issuer and serial, subject name, key name) without carrying it; a store that fails after it was rotated; class two-tenants-at-once (two providers with different stores validating concurrently); certificates issued by a CA that is a store member; tamper repeated-id (a second ID attribute in front of the signed element's own)",
 		Assumptions: []string{"exact NotBefore/NotAfter instants are not probed (X.509 validity is inclusive; the property says inside)", "wall time is decades away from every certificate window"}})
 }
 
@@ -407,6 +409,7 @@ func runC02(c *mon.Ctx) {
 	}
 
 	runStoreRotation(c, c.N(400, 10000), nb, na, kinds)
+	runTwoTenants(c, c.N(24, 600), nb.Add(time.Hour))
 	runStoreRollover(c, c.N(200, 5000), nb, kinds)
 
 	// ---- one long-lived SP whose clock moves across the signing certificate's window ----
@@ -659,6 +662,101 @@ func runStoreRollover(c *mon.Ctx, n int, t0 time.Time, kinds []string) {
 		cs.Nontrivial(fmt.Sprintf("%v/%d", trace, k))
 		if !bad {
 			cs.Outcome("each-certificate-within-its-window")
+		}
+	}
+}
+
+// runTwoTenants: two providers of one process, each trusting its own IdP certificate, validate at the same time. A
+// message signed by the other tenant's IdP is refused by each of them however the calls interleave.
+func runTwoTenants(c *mon.Ctx, n int, now time.Time) {
+	for k := 0; k < n; k++ {
+		cs := c.Begin("two-tenants-at-once", k)
+		if cs == nil {
+			continue
+		}
+		w := NewWorld(now)
+		certA, certB := w.IdP[0], w.IdP[1]
+		mk := func(signer *sim.Cert, kind int) (string, int) {
+			spec := sim.DefaultSig(signer.Key, signer)
+			switch kind % 3 {
+			case 0:
+				l := sim.GenuineLogout(w.Env, false)
+				l.Sig = spec
+				d, _ := sim.BuildLogout(l, sim.PlainStyle())
+				return sim.Encode(d, sim.RawLevel), 0
+			case 1:
+				l := sim.GenuineLogout(w.Env, true)
+				l.Sig = spec
+				d, _ := sim.BuildLogout(l, sim.PlainStyle())
+				return sim.Encode(d, sim.RawLevel), 1
+			}
+			rec := sim.GenuineResponse(w.Env, 1)
+			rec.Sig = spec
+			d, _ := sim.BuildResponse(rec, sim.PlainStyle())
+			return sim.Encode(d, sim.RawLevel), 2
+		}
+		call := func(sp *saml2.SAMLServiceProvider, enc string, kind int) bool {
+			var err error
+			switch kind {
+			case 0:
+				_, err = sp.ValidateEncodedLogoutRequestPOST(enc)
+			case 1:
+				_, err = sp.ValidateEncodedLogoutResponsePOST(enc)
+			default:
+				_, err = sp.ValidateEncodedResponse(enc)
+			}
+			return err == nil
+		}
+		spA, _, _ := NewSP(now, certA)
+		spB, _, _ := NewSP(now, certB)
+		type msg struct {
+			enc  string
+			kind int
+		}
+		var ownA, ownB, foreignA, foreignB []msg
+		for i := 0; i < 3; i++ {
+			e, kd := mk(certA, i)
+			ownA, foreignB = append(ownA, msg{e, kd}), append(foreignB, msg{e, kd})
+			e, kd = mk(certB, i)
+			ownB, foreignA = append(ownB, msg{e, kd}), append(foreignA, msg{e, kd})
+		}
+		var wrongAccept, wrongRefuse atomic.Int64
+		var wg sync.WaitGroup
+		start := make(chan struct{})
+		const G, iters = 8, 40
+		for g := 0; g < G; g++ {
+			wg.Add(1)
+			go func(g int) {
+				defer wg.Done()
+				defer func() { _ = recover() }()
+				sp, own, foreign := spA, ownA, foreignA
+				if g%2 == 1 {
+					sp, own, foreign = spB, ownB, foreignB
+				}
+				<-start
+				for i := 0; i < iters; i++ {
+					m := foreign[(g+i)%3]
+					if call(sp, m.enc, m.kind) {
+						wrongAccept.Add(1)
+					}
+					m = own[(g+i)%3]
+					if !call(sp, m.enc, m.kind) {
+						wrongRefuse.Add(1)
+					}
+				}
+			}(g)
+		}
+		close(start)
+		wg.Wait()
+		cs.Desc("two providers (stores %s / %s), %d goroutines x %d rounds of own and foreign messages", certA.Key.Name, certB.Key.Name, G, iters)
+		cs.Nontrivial(fmt.Sprintf("two-tenants/%d", k))
+		switch {
+		case wrongAccept.Load() > 0:
+			cs.Violation("other-tenants-signer-accepted", "%d message(s) signed by the certificate that only the OTHER provider's store holds were accepted while both providers validated at the same time", wrongAccept.Load())
+		case wrongRefuse.Load() > 0:
+			cs.Violation("own-signer-refused-under-concurrency", "%d message(s) signed by the provider's own store member were refused while another provider validated at the same time", wrongRefuse.Load())
+		default:
+			cs.Outcome("each-tenant-trusts-its-own-store")
 		}
 	}
 }
